@@ -80,7 +80,7 @@ fn c05_header_fields() {
 
 /// Quick variant: the three text fields are ASCII (what the format documents), everything else free.
 #[kani::proof]
-#[kani::unwind(12)]
+#[kani::unwind(14)]
 #[kani::stub(alloc::fmt::format, crate::stubs::fmt_format)]
 fn c05_header_fields_ascii() {
     header_fields(true);
